@@ -37,10 +37,10 @@ const (
 	Existing0600  Dest = "existing-0600"
 	Existing0644  Dest = "existing-0644"
 	Existing0664  Dest = "existing-0664"
-	Symlink       Dest = "symlink"         // out is a symbolic link to store/real<ext> (a regular file)
-	Hardlink      Dest = "hardlink"        // out and keep/other<ext> are two names of one file
-	SameAsStdin   Dest = "same-as-stdin"   // out is the very file stdin is redirected from
-	OutDirMissing Dest = "outdir-missing"  // out lies in a directory that does not exist (must fail cleanly)
+	Symlink       Dest = "symlink"        // out is a symbolic link to store/real<ext> (a regular file)
+	Hardlink      Dest = "hardlink"       // out and keep/other<ext> are two names of one file
+	SameAsStdin   Dest = "same-as-stdin"  // out is the very file stdin is redirected from
+	OutDirMissing Dest = "outdir-missing" // out lies in a directory that does not exist (must fail cleanly)
 	DirEmpty      Dest = "dir-empty"
 	DirExisting   Dest = "dir-existing"
 )
